@@ -238,6 +238,17 @@ SCOPE_TEMPLATES = [
     ("isinstance-mro", "class A:\n    pass\nclass B(A):\n    pass\nb1 = B()\nR = (isinstance(b1, A), type(b1).__name__, issubclass(B, A), B.__mro__[1].__name__)\n"),
     ("keywords-named-like-interpreter-parameters", "def f(**kw):\n    return sorted(kw)\nclass A:\n    def m(self, **kw):\n        return sorted(kw)\nR = [f(self=1, func=2, func_name=3, ast_ctx=4), A().m(func=2, ast_ctx=4, args=5, kwargs=6)]\n"),
     ("posonly-kwargs", "def f(p, /, **kw):\n    return (p, kw)\ntry:\n    R = f(1, p=2)\nexcept TypeError:\n    R = 'TypeError'\n", "posonly-name-in-kwargs"),
+    ("lambda-kwonly-default-loop", "fs = []\nfor i in range(3):\n    fs.append(lambda *, k=T('kd', i): k * 10)\nR = [f() for f in fs]\n"),
+    ("lambda-defaults-in-function-loop", "def mk(n):\n    fs = []\n    for i in range(n):\n        fs.append(lambda a, b=T('d', i), *, k=T('kd', i + 1): (a, b, k))\n    return [f(100) for f in fs]\nR = mk(3)\nR2 = mk(2)\n"),
+    ("lambda-kwonly-default-factory", "def adder(n):\n    return lambda q, *, inc=T('inc', n): q + inc\na1 = adder(1)\na2 = adder(5)\nR = [a1(10), a2(10), a1(10, inc=2)]\n"),
+    ("comp-iter-unbound-free", "x = 5\ndef outer():\n    def inner():\n        try:\n            return [x for x in (x, 1)]\n        except NameError:\n            return 'NameError-family'\n    r = inner()\n    x = 1\n    return r\nR = outer()\n", "comp-iter-unbound-free"),
+    ("inherited-init", "class A:\n    def __init__(self, x):\n        self.x = x\nclass B(A):\n    pass\ntry:\n    R = B(3).x\nexcept TypeError:\n    R = 'TypeError'\n", "inherited-init"),
+    ("inherited-init-two-levels", "class A:\n    def __init__(self, x):\n        self.x = x\nclass B(A):\n    def m(self):\n        return self.x + 1\nclass C(B):\n    pass\ntry:\n    R = (C(3).m(), B(x=5).x)\nexcept TypeError:\n    R = 'TypeError'\n", "inherited-init"),
+    ("class-body-raises", "def f():\n    y = 5\n    try:\n        class K:\n            z = 1 // 0\n    except ZeroDivisionError:\n        pass\n    return y\nR = f()\n", "class-body-raises"),
+    ("class-body-raises-module", "y = 7\ntry:\n    class K:\n        z = 1 // 0\nexcept ZeroDivisionError:\n    pass\ndef h():\n    return y\nR = [y, h()]\n", "class-body-raises"),
+    ("class-forward-ref", "def chk(o):\n    return isinstance(o, A)\nclass A:\n    pass\na1 = A()\nR = [chk(a1), chk(3)]\n", "class-forward-ref"),
+    ("class-forward-ref-in-function", "def outer():\n    def chk(o):\n        return isinstance(o, A)\n    class A:\n        pass\n    return [chk(A()), chk(3)]\ntry:\n    R = outer()\nexcept NameError:\n    R = 'NameError-family'\n", "class-forward-ref"),
+    ("explicit-base-init", "class A:\n    def __init__(self, x):\n        self.x = x\nclass B(A):\n    def __init__(self, x, y):\n        A.__init__(self, x)\n        self.y = y\ntry:\n    R = (B(3, 4).x, B(3, 4).y)\nexcept TypeError:\n    R = 'TypeError'\n", "explicit-base-init"),
 ]
 
 
@@ -360,6 +371,280 @@ class ScopeGen:
         return "\n".join(lines) + "\n"
 
 
+class CellGen:
+    """random programs of the Lean statement language that exercise the life cycle of closure cells beyond ScopeGen:
+    inner functions returned and called after their activation ended (two closures of one activation, closures of two
+    activations), recursion, nested defs inside except / try / if bodies, del of shared variables, reads of unbound shared
+    variables caught and continued, comprehensions whose iterable and element read the variables"""
+
+    VARS = ["x", "y"]
+
+    def __init__(self, rng):
+        self.rng = rng
+        self.n = itertools.count(1)
+
+    def simple(self, v=None):
+        rng = self.rng
+        v = v or rng.choice(self.VARS)
+        return rng.choice([str(rng.randrange(10)), v, v, f"{v} + {rng.randrange(1, 4)}"])
+
+    def stmt(self, name, depth, locs, decl, closures):
+        """-> list of source lines"""
+        rng = self.rng
+        v = rng.choice(self.VARS)
+        k = rng.random()
+
+        def bind():
+            if not decl or decl[1] != v:
+                locs.add(v)
+        if k < 0.16:
+            bind()
+            return [f"{v} = T('{name}.set{v}', {rng.randrange(10)})"]
+        if k < 0.24:
+            bind()
+            return [f"{v} = T('{name}.inc{v}', {v} + 1)"]
+        if k < 0.30:
+            bind()
+            return [f"{v} += T('{name}.aug{v}', 1)"]
+        if k < 0.42:
+            return [f"T('{name}.read{v}', {v})"]
+        if k < 0.50:
+            bind()
+            if rng.random() < 0.7:
+                return ["try:", f"    del {v}", "except NameError:", f"    T('{name}.delfail{v}')"]
+            return [f"del {v}"]
+        if k < 0.56:
+            bind()
+            body = [f"T('{name}.h{v}', {v}.args)"]
+            if depth > 0 and rng.random() < 0.5:
+                body += self.nested(name, depth, locs, decl, closures)        # a def inside the except clause
+            return ["try:", f"    raise ValueError(T('{name}.raise{v}', {rng.randrange(10)}))", f"except ValueError as {v}:"] + \
+                ["    " + l for l in body]
+        if k < 0.64:
+            w = rng.choice(self.VARS)
+            its = ", ".join(self.simple() for _ in range(rng.randrange(1, 4)))
+            elt = rng.choice([v, v, f"{v} + 1", w])
+            return [f"T('{name}.comp{v}', [{elt} for {v} in ({its},)])"]
+        if k < 0.70:
+            body = self.stmt(name, 0, locs, decl, closures) if rng.random() < 0.6 or depth == 0 else self.nested(name, depth, locs, decl, closures)
+            return [f"if T('{name}.if{v}', {self.simple(v)}):"] + ["    " + l for l in body]
+        if k < 0.76:
+            body = []
+            for _ in range(rng.randrange(1, 3)):
+                body += self.stmt(name, depth, locs, decl, closures)
+            return ["try:"] + ["    " + l for l in body] + ["except NameError:", f"    T('{name}.caught')"]
+        if k < 0.84 and closures:
+            c, npar = rng.choice(closures)
+            args = ", ".join(str(rng.randrange(4)) for _ in range(npar if rng.random() < 0.93 else npar + 1))
+            return [f"T('{name}.use{c}', {c}({args}))"]
+        if depth > 0:
+            return self.nested(name, depth, locs, decl, closures)
+        return [f"T('{name}.read{v}', {v})"]
+
+    def nested(self, name, depth, locs, decl, closures):
+        """a nested definition of one of three kinds, and what the enclosing function does with it"""
+        rng = self.rng
+        kind = rng.choice(["plain", "plain", "factory", "rec"])
+        if kind == "plain":
+            sub, src, npar = self.func(depth - 1, locs, True)
+            locs.add(sub)
+            closures.append((sub, npar))
+            out = list(src)
+            if rng.random() < 0.7:
+                args = ", ".join(str(rng.randrange(4)) for _ in range(npar))
+                out.append(f"T('{name}.call', {sub}({args}))")
+            return out
+        if kind == "factory":
+            mk, c = f"mk{next(self.n)}", f"c{next(self.n)}"
+            inner, isrc, npar = self.func(max(depth - 2, 0), locs | {"x", "y"}, True)
+            body = []
+            lv = set()
+            for v in rng.sample(self.VARS, rng.randrange(0, 3)):
+                body.append(f"{v} = T('{mk}.set{v}', {rng.randrange(10)})")
+                lv.add(v)
+            body += isrc
+            if rng.random() < 0.3:
+                body.append(f"T('{mk}.pre', {inner}({', '.join('0' for _ in range(npar))}))")
+            body.append(f"return {inner}")
+            out = [f"def {mk}():"] + ["    " + l for l in body]
+            args = ", ".join(str(rng.randrange(4)) for _ in range(npar))
+            out += [f"{c} = {mk}()", f"T('{name}.{c}a', {c}({args}))", f"T('{name}.{c}b', {c}({args}))"]
+            locs |= {mk, c}
+            closures.append((c, npar))
+            if rng.random() < 0.5:
+                c2 = f"c{next(self.n)}"
+                out += [f"{c2} = {mk}()", f"T('{name}.{c2}a', {c2}({args}))", f"T('{name}.{c}c', {c}({args}))"]
+                locs.add(c2)
+                closures.append((c2, npar))
+            return out
+        rec = f"r{next(self.n)}"
+        v = rng.choice(self.VARS)
+        body = [f"T('{rec}.n', n)"]
+        if rng.random() < 0.5:
+            body.append(f"{v} = T('{rec}.set{v}', n + 1)")
+        else:
+            body += [f"nonlocal {v}", f"{v} = T('{rec}.nl{v}', {v} + 1)"] if v in locs and not (decl and decl[1] == v) else [f"T('{rec}.read{v}', {v})"]
+        if rng.random() < 0.5:
+            body += [f"def g{rec}():", f"    return T('g{rec}.{v}', {v})"]
+            after = [f"T('{rec}.after', g{rec}())"]
+        else:
+            after = [f"T('{rec}.after{v}', {v})"]
+        body += ["if n:", f"    T('{rec}.down', {rec}(n + -1))"] + after + [f"return T('{rec}.ret', n)"]
+        locs.add(rec)
+        closures.append((rec, 1))
+        return [f"def {rec}(n):"] + ["    " + l for l in body] + [f"T('{name}.rec', {rec}({rng.randrange(1, 4)}))"]
+
+    def func(self, depth, enclosing_locals, nested=False):
+        rng = self.rng
+        name = f"f{next(self.n)}"
+        params = rng.sample(self.VARS, rng.randrange(0, 3))
+        locs = set(params)
+        decl = None
+        r = rng.random()
+        if r < 0.25 and nested:
+            v = rng.choice(sorted(enclosing_locals & set(self.VARS))) if (enclosing_locals & set(self.VARS)) and rng.random() < 0.8 else rng.choice(self.VARS)
+            if v not in params:
+                decl = ("nonlocal", v)
+        elif r < 0.4:
+            v = rng.choice(self.VARS)
+            if v not in params:
+                decl = ("global", v)
+        body = [f"{decl[0]} {decl[1]}"] if decl else []
+        closures = []
+        for _ in range(rng.randrange(1, 6)):
+            body += self.stmt(name, depth, locs, decl, closures)
+        body.append(f"return T('{name}.ret', {rng.choice(['x', 'y', '0'])})")
+        return name, [f"def {name}({', '.join(params)}):"] + ["    " + l for l in body], len(params)
+
+    def program(self):
+        rng = self.rng
+        lines = []
+        for v in self.VARS:
+            if rng.random() < 0.7:
+                lines.append(f"{v} = {rng.randrange(10)}")
+        name, src, npar = self.func(rng.choice([1, 2, 2, 3]), set())
+        args = ", ".join(str(rng.randrange(5)) for _ in range(npar))
+        return "\n".join(lines + src + [f"R = {name}({args})", f"R2 = {name}({args})"]) + "\n"
+
+
+class ClassGen:
+    """random small class programs along the dimensions the hand-written templates missed: which level of an
+    inheritance chain defines __init__ (none / base / middle / leaf) x how the leaf is instantiated; a class body that
+    raises inside a try of the enclosing scope, followed by reads / calls / assignments there; functions defined BEFORE a
+    class that use the class by name once it exists (module level and inside a function)"""
+
+    def __init__(self, rng):
+        self.rng = rng
+
+    def inherit(self):
+        rng = self.rng
+        depth = rng.choice([2, 2, 3])
+        init_at = rng.choice([None, 0, 0, 0, 1, depth - 1])
+        nparam = rng.randrange(0, 3)
+        ps = ["a", "b"][:nparam]
+        lines, feats = [], ["class-gen", "inherit"]
+        for i in range(depth):
+            base = f"(A{i - 1})" if i else ""
+            lines.append(f"class A{i}{base}:")
+            body = []
+            if init_at == i:
+                sig = ", ".join(["self"] + [p + ("=7" if p == "b" and rng.random() < 0.5 else "") for p in ps])
+                body += [f"    def __init__({sig}):", f"        self.v = T('A{i}.init', ({', '.join(ps)}{',' if len(ps) == 1 else ''}))"]
+            if rng.random() < 0.6:
+                body += [f"    def m{i}(self):", f"        return T('A{i}.m', getattr(self, 'v', None))"]
+            if rng.random() < 0.3:
+                body += [f"    k{i} = T('A{i}.k', {rng.randrange(9)})"]
+            lines += body or ["    pass"]
+        if init_at is not None and init_at < depth - 1:
+            feats.append("inherited-init")
+        leaf = f"A{depth - 1}"
+        for j in range(rng.randrange(1, 4)):
+            nargs = rng.choice([nparam, nparam, max(0, nparam - 1), nparam + 1])
+            args = ", ".join(str(rng.randrange(9)) for _ in range(nargs))
+            cls = rng.choice([leaf, leaf, f"A{rng.randrange(depth)}"])
+            lines += ["try:", f"    o{j} = {cls}({args})", f"    T('o{j}', sorted(vars(o{j}).items()))",
+                      "except TypeError:", f"    T('o{j}', 'TypeError')"]
+        lines.append("R = 0")
+        return "\n".join(lines) + "\n", feats
+
+    def body_raises(self):
+        rng = self.rng
+        in_func = rng.random() < 0.7
+        closure = in_func and rng.random() < 0.5
+        exc, stmt = rng.choice([("ZeroDivisionError", "w = 1 // 0"), ("NameError", "w = undefined_zq"), ("KeyError", "w = {}['k']")])
+        body = [f"y = {rng.randrange(9)}"]
+        if closure:
+            body += ["def g():", "    return T('g', y)"]
+        cb = [f"    z = T('K.z', {rng.randrange(9)})"] if rng.random() < 0.5 else []
+        if rng.random() < 0.4:
+            cb += ["    def m(self):", "        return 1"]
+        body += ["try:", "    class K:"] + ["    " + l for l in cb] + [f"        {stmt}", f"except {exc}:", "    T('caught', y)"]
+        body += [f"y2 = T('after', y + {rng.randrange(3)})"]
+        if closure:
+            body += ["T('g-call', g())"]
+        if rng.random() < 0.5:
+            body += ["class L:", "    q = T('L.q', y2)", "T('L', L.q)"]
+        if in_func:
+            src = ["def f():"] + ["    " + l for l in body] + ["    return T('ret', (y, y2))", "R = f()", "R2 = T('mod', R)"]
+        else:
+            src = body + ["def h():", "    return T('h', y)", "R = [y, y2, h()]"]
+        return "\n".join(src) + "\n", ["class-gen", "class-body-raises"]
+
+    def forward_ref(self):
+        rng = self.rng
+        use = rng.choice(["isinstance(o, A)", "type(o) is A", "A.k", "A().m()", "issubclass(A, A)", "[A][0] is A", "A is not None"])
+        in_func = rng.random() < 0.4
+        body = ["def chk(o):", f"    return T('chk', {use})", "class A:", f"    k = {rng.randrange(9)}", "    def m(self):", "        return T('A.m', self.k)"]
+        if rng.random() < 0.3:
+            body += ["class B(A):", "    pass", "T('b', chk(B()))"]
+        body += ["T('r1', chk(A()))", "T('r2', chk(3))"]
+        if in_func:
+            src = ["def outer():"] + ["    " + l for l in body] + ["    return 0", "try:", "    R = outer()", "except NameError:", "    R = 'NameError-family'"]
+        else:
+            src = body + ["R = 0"]
+        return "\n".join(src) + "\n", ["class-gen", "class-forward-ref"]
+
+    def program(self):
+        return self.rng.choice([self.inherit, self.inherit, self.body_raises, self.forward_ref])()
+
+
+class LambdaGen:
+    """lambda expressions with positional / keyword-only defaults (each default goes through the tracer) that are
+    evaluated several times: in a loop at module level, in a loop inside a function called twice, or by a factory"""
+
+    def __init__(self, rng):
+        self.rng = rng
+
+    def program(self):
+        rng = self.rng
+        npos, nd, nk = rng.randrange(0, 3), rng.randrange(0, 3), rng.randrange(0, 3)
+        if nd + nk == 0:
+            nk = 1
+        ps = [f"a{j}" for j in range(npos)] + [f"d{j}=T('d{j}', i + {j})" for j in range(nd)]
+        if nk:
+            ps.append("*")
+            ps += [f"k{j}=T('k{j}', i * {j + 2})" for j in range(nk)]
+        names = [f"a{j}" for j in range(npos)] + [f"d{j}" for j in range(nd)] + [f"k{j}" for j in range(nk)]
+        lam = f"lambda {', '.join(ps)}: ({', '.join(names)},)"
+        args = ", ".join(str(rng.randrange(9)) for _ in range(npos))
+        over = ""
+        if nk and rng.random() < 0.5:
+            over = (", " if args else "") + f"k{rng.randrange(nk)}=99"
+        place = rng.choice(["module-loop", "function-loop", "factory", "comprehension"])
+        n = rng.randrange(2, 4)
+        if place == "module-loop":
+            src = ["fs = []", f"for i in range({n}):", f"    fs.append({lam})", f"R = [f({args}) for f in fs]", f"R2 = [f({args}{over}) for f in fs]"]
+        elif place == "function-loop":
+            src = ["def mk(n):", "    fs = []", "    for i in range(n):", f"        fs.append({lam})",
+                   f"    return [f({args}{over}) for f in fs]", f"R = mk({n})", "R2 = mk(2)"]
+        elif place == "factory":
+            src = ["def mk(i):", f"    return {lam}", f"g1 = mk({rng.randrange(5)})", f"g2 = mk({rng.randrange(5, 9)})",
+                   f"R = [g1({args}), g2({args}{over}), g1({args})]"]
+        else:
+            src = [f"fs = [{lam} for i in range({n})]", f"R = [f({args}{over}) for f in fs]"]
+        return "\n".join(src) + "\n", ["lambda-gen", place]
+
+
 def pep709_quirk(src):
     """CPython 3.12 inlines comprehensions (PEP 709); in 3.12.1 a name that is ONLY a comprehension variable in a function
     but is also used free by a function or class nested in that function is resolved by the nested scope to the (unbound)
@@ -410,6 +695,41 @@ def scope_cases(rng, tier):
             continue
         seen.add(src)
         out.append(Case({"stream": "scope", "src": src, "features": ["random-nesting"]}, None, tags=["scope", "random-nesting"]))
+    ncell = 300 if tier == "quick" else 4000
+    seen_g = set()
+    for _ in range(ncell * 3):
+        if len(seen_g) >= ncell:
+            break
+        src = CellGen(rng).program()
+        if src in seen or src in seen_g:
+            continue
+        try:
+            compile(src, "t", "exec")
+        except SyntaxError:
+            continue
+        if pep709_quirk(src) or cells_translate(src) is None:
+            continue
+        seen_g.add(src)
+        out.append(Case({"stream": "scope", "src": src, "features": ["random-nesting", "cell-gen"]}, None,
+                        tags=["scope", "random-nesting", "cell-gen"]))
+    ncls, seen_c = (90 if tier == "quick" else 900), set()
+    for _ in range(ncls * 3):
+        if len(seen_c) >= ncls:
+            break
+        src, feats = ClassGen(rng).program()
+        if src in seen_c:
+            continue
+        seen_c.add(src)
+        out.append(Case({"stream": "scope", "src": src, "features": feats}, None, tags=["scope"] + feats))
+    nlam, seen_l = (40 if tier == "quick" else 400), set()
+    for _ in range(nlam * 3):
+        if len(seen_l) >= nlam:
+            break
+        src, feats = LambdaGen(rng).program()
+        if src in seen_l:
+            continue
+        seen_l.add(src)
+        out.append(Case({"stream": "scope", "src": src, "features": feats}, None, tags=["scope"] + feats))
     return out
 
 
@@ -695,6 +1015,142 @@ def project(kind, out):
     return out
 
 
+# ------------------------------------------------------------------ cells stream: programs of the Lean statement language
+class NotInLanguage(Exception):
+    pass
+
+
+def _cs_simple(e):
+    import ast
+    if isinstance(e, ast.Constant) and e.value is None:
+        return "nil"
+    if isinstance(e, ast.Constant) and type(e.value) is int:
+        return ["lit", e.value]
+    if isinstance(e, ast.UnaryOp) and isinstance(e.op, ast.USub) and isinstance(e.operand, ast.Constant) and type(e.operand.value) is int:
+        return ["lit", -e.operand.value]
+    if isinstance(e, ast.Name):
+        return ["var", e.id]
+    if isinstance(e, ast.BinOp) and isinstance(e.op, ast.Add) and isinstance(e.left, ast.Name):
+        r = _cs_simple(e.right)
+        if isinstance(r, list) and r[0] == "lit":
+            return ["addv", e.left.id, r[1]]
+    return None
+
+
+def _cs_expr(e):
+    import ast
+    s = _cs_simple(e)
+    if s is not None:
+        return s
+    if isinstance(e, ast.BinOp) and isinstance(e.op, ast.Add) and isinstance(e.right, ast.Constant) and type(e.right.value) is int:
+        return ["add", _cs_expr(e.left), e.right.value]
+    if isinstance(e, ast.Call) and not e.keywords:
+        if isinstance(e.func, ast.Name) and e.func.id == "T":
+            if len(e.args) in (1, 2) and isinstance(e.args[0], ast.Constant) and isinstance(e.args[0].value, str):
+                return ["T", e.args[0].value, _cs_expr(e.args[1]) if len(e.args) == 2 else "nil"]
+            raise NotInLanguage("T call")
+        args = [_cs_simple(a) for a in e.args]
+        if any(a is None for a in args):
+            raise NotInLanguage("call argument")
+        return ["call", _cs_expr(e.func), args]
+    if isinstance(e, ast.ListComp) and len(e.generators) == 1:
+        g = e.generators[0]
+        if isinstance(g.target, ast.Name) and not g.ifs and not g.is_async and isinstance(g.iter, ast.Tuple):
+            its = [_cs_simple(a) for a in g.iter.elts]
+            elt = _cs_simple(e.elt)
+            if elt is not None and all(a is not None for a in its):
+                return ["comp", g.target.id, its, elt]
+        raise NotInLanguage("comprehension shape")
+    if isinstance(e, ast.Attribute) and e.attr == "args":
+        return ["args", _cs_expr(e.value)]
+    raise NotInLanguage(type(e).__name__)
+
+
+def _cs_stmts(body):
+    import ast
+    out = []
+    for n in body:
+        if isinstance(n, ast.Pass):
+            continue
+        if isinstance(n, ast.Global):
+            out += [["global", v] for v in n.names]
+        elif isinstance(n, ast.Nonlocal):
+            out += [["nonlocal", v] for v in n.names]
+        elif isinstance(n, ast.If) and not n.orelse:
+            out.append(["if", _cs_expr(n.test), _cs_stmts(n.body)])
+        elif isinstance(n, ast.Assign) and len(n.targets) == 1 and isinstance(n.targets[0], ast.Name):
+            out.append(["assign", n.targets[0].id, _cs_expr(n.value)])
+        elif isinstance(n, ast.AnnAssign) and isinstance(n.target, ast.Name) and n.value is not None:
+            out.append(["assign", n.target.id, _cs_expr(n.value)])
+        elif isinstance(n, ast.AugAssign) and isinstance(n.target, ast.Name) and isinstance(n.op, ast.Add):
+            out.append(["aug", n.target.id, _cs_expr(n.value)])
+        elif isinstance(n, ast.For) and isinstance(n.target, ast.Name) and isinstance(n.iter, ast.Tuple) and len(n.iter.elts) == 1 \
+                and not n.orelse and all(isinstance(b, ast.Pass) for b in n.body):
+            out.append(["assign", n.target.id, _cs_expr(n.iter.elts[0])])          # one iteration = one assignment
+        elif isinstance(n, ast.With) and len(n.items) == 1 and isinstance(n.items[0].optional_vars, ast.Name) and \
+                isinstance(n.items[0].context_expr, ast.Call) and isinstance(n.items[0].context_expr.func, ast.Name) and \
+                n.items[0].context_expr.func.id == "CM" and len(n.items[0].context_expr.args) == 1 and \
+                all(isinstance(b, ast.Pass) for b in n.body):
+            out.append(["assign", n.items[0].optional_vars.id, _cs_expr(n.items[0].context_expr.args[0])])
+        elif isinstance(n, ast.Expr):
+            out.append(["expr", _cs_expr(n.value)])
+        elif isinstance(n, ast.Delete) and all(isinstance(t, ast.Name) for t in n.targets):
+            out += [["del", t.id] for t in n.targets]
+        elif isinstance(n, ast.Return) and n.value is not None:
+            out.append(["ret", _cs_expr(n.value)])
+        elif isinstance(n, ast.FunctionDef) and not n.decorator_list and not n.args.defaults and not n.args.kwonlyargs and \
+                not n.args.posonlyargs and not n.args.vararg and not n.args.kwarg:
+            out.append(["def", n.name, [a.arg for a in n.args.args], _cs_stmts(n.body)])
+        elif isinstance(n, ast.Try) and not n.orelse and not n.finalbody and len(n.handlers) == 1:
+            h = n.handlers[0]
+            if isinstance(h.type, ast.Name) and h.type.id == "ValueError" and h.name and len(n.body) == 1 and \
+                    isinstance(n.body[0], ast.Raise) and isinstance(n.body[0].exc, ast.Call) and \
+                    isinstance(n.body[0].exc.func, ast.Name) and n.body[0].exc.func.id == "ValueError" and len(n.body[0].exc.args) == 1 \
+                    and n.body[0].cause is None:
+                out.append(["handler", h.name, _cs_expr(n.body[0].exc.args[0]), _cs_stmts(h.body)])
+            elif isinstance(h.type, ast.Name) and h.type.id == "NameError" and h.name is None:
+                out.append(["tryne", _cs_stmts(n.body), _cs_stmts(h.body)])
+            else:
+                raise NotInLanguage("try shape")
+        else:
+            raise NotInLanguage(type(n).__name__)
+    return out
+
+
+def cells_translate(src):
+    """the program as an S-expression of the Lean statement language, or None when it is outside the language:
+    module = integer globals, ONE function definition, `R = f(ints…)`, `R2 = f(ints…)`"""
+    import ast
+    try:
+        tree = ast.parse(src)
+        ginit, fn, calls = [], None, []
+        for n in tree.body:
+            if isinstance(n, ast.Assign) and len(n.targets) == 1 and isinstance(n.targets[0], ast.Name):
+                t = n.targets[0].id
+                if fn is None and isinstance(n.value, ast.Constant) and type(n.value.value) is int:
+                    ginit.append([t, n.value.value])
+                    continue
+                if fn is not None and t == ("R", "R2")[len(calls)] if len(calls) < 2 else False:
+                    c = n.value
+                    if isinstance(c, ast.Call) and isinstance(c.func, ast.Name) and c.func.id == fn.name and not c.keywords and \
+                            all(isinstance(a, ast.Constant) and type(a.value) is int for a in c.args):
+                        calls.append([a.value for a in c.args])
+                        continue
+                raise NotInLanguage("module assignment")
+            if isinstance(n, ast.FunctionDef) and fn is None:
+                fn = n
+                continue
+            raise NotInLanguage("module statement")
+        if fn is None or len(calls) != 2 or calls[0] != calls[1] or len({k for k, _ in ginit}) != len(ginit):
+            raise NotInLanguage("module shape")
+        d = _cs_stmts([fn])
+        if len(d) != 1 or d[0][0] != "def":
+            raise NotInLanguage("function shape")
+        return ["cells", ["ginit"] + ginit, d[0], ["args"] + calls[0], ["watch", "x", "y"]]
+    except (NotInLanguage, SyntaxError, RecursionError):
+        return None
+
+
 async def ps_exec(src, G):
     import interp_env
     G.setdefault("__name__", "c03")          # a non-empty table: GlobalContext replaces an empty dict by a new one
@@ -728,6 +1184,14 @@ async def run_scope(src):
         lines, kinds, exp, problems = names_analysis(src, records)
     except SyntaxError:
         lines, kinds, exp, problems = [], [], [], []
+    t = cells_translate(src)
+    if t is not None:
+        # the program is in the Lean statement language: the cell model must reproduce pyscript's run (tie) and the
+        # reference must reproduce CPython's (reference validated)
+        lines, kinds, exp = list(lines), list(kinds), list(exp)
+        lines.append("C03 " + sx(t))
+        kinds.append(("cells", None))
+        exp.append(f"model={out[0].replace(' ', '_')} spec={out[1].replace(' ', '_')}")
     return out[0], out[1], lines, kinds, exp, problems
 
 
@@ -821,6 +1285,13 @@ def _execute(mod, cases, br):
             if c.payload["stream"] == "scope":
                 kinds = c.payload.pop("line_kinds")
                 outs_c = [project(k, o) for k, o in zip(kinds, outs_c)]
+                if kinds and kinds[-1][0] == "cells" and outs_c:
+                    c.payload["cells"] = "in-language"
+                    if outs_c[-1].count("|exc:UNSUPPORTED") == 2:
+                        # a value of a type the statement language has no counterpart for (e.g. a list of exception
+                        # objects) was computed: both columns stop there; the program is outside the language
+                        c.payload["cells"] = "unsupported-value"
+                        outs_c[-1] = c.impl.split(" ")[-2] + " " + c.impl.split(" ")[-1]
                 c.payload["names_lines"] = c.line[:40]
                 c.line = f"{len(c.line)} driver lines (local names per function, resolution per function and name)"
             else:
@@ -939,6 +1410,22 @@ def comp_var_declared_global(src):
     return False
 
 
+def comp_iter_reads_own_var(src):
+    """syntactic feature of finding C03-F17: a comprehension whose first iterable reads a name that is also its loop variable"""
+    import ast
+    try:
+        tree = ast.parse(src)
+    except SyntaxError:
+        return False
+    for n in ast.walk(tree):
+        if isinstance(n, (ast.ListComp, ast.SetComp, ast.DictComp)):
+            g = n.generators[0]
+            tg = {m.id for m in ast.walk(g.target) if isinstance(m, ast.Name)}
+            if tg & {m.id for m in ast.walk(g.iter) if isinstance(m, ast.Name)}:
+                return True
+    return False
+
+
 def del_declared_global(src):
     """syntactic feature of finding C03-F12: a function declares `global v` and deletes v"""
     import ast
@@ -954,6 +1441,11 @@ def del_declared_global(src):
     return False
 
 
+# signatures of defects for which a `fix:` patch is prepared (notes/fixes_pending/): excused only while the finding is
+# still listed as open in findings.d/C03.json; once it is `fixed` the check reports them again
+PENDING_FIX_SIGNATURES = ("comp-iter-unbound-free", "inherited-init", "class-body-raises", "class-forward-ref")
+
+
 def classify(c, reason):
     if c.payload["stream"] == "scope":
         f = list(c.payload.get("features", []))
@@ -961,8 +1453,10 @@ def classify(c, reason):
             f.append("comp-var-declared-global")
         if "random-nesting" in f and del_declared_global(c.payload["src"]):
             f.append("del-missing-global")
+        if "random-nesting" in f and comp_iter_reads_own_var(c.payload["src"]):
+            f.append("comp-iter-unbound-free")
         for k in ("native-closure", "comp-var-declared-global", "del-missing-global", "zero-arg-super",
-                  "classmethod-property-descriptor"):   # open findings
+                  "classmethod-property-descriptor", "explicit-base-init") + PENDING_FIX_SIGNATURES:   # open findings
             if k in f:
                 return k
         return "scope:" + "+".join(f)
@@ -994,4 +1488,6 @@ def replay_cases(obj):
 def extra_coverage(cases):
     nb = sum(c.payload.get("ncalls", 0) for c in cases if c.payload["stream"] == "bind")
     return {"bind_signatures": sum(1 for c in cases if c.payload["stream"] == "bind"), "bind_call_pairs": nb,
-            "scope_programs": sum(1 for c in cases if c.payload["stream"] == "scope")}
+            "scope_programs": sum(1 for c in cases if c.payload["stream"] == "scope"),
+            "cells_programs_model_vs_impl": sum(1 for c in cases if c.payload.get("cells") == "in-language"),
+            "cells_programs_unsupported_value": sum(1 for c in cases if c.payload.get("cells") == "unsupported-value")}
